@@ -237,10 +237,6 @@ func RunCase(c *Case, f func(), limit time.Duration) (o *Outcome) {
 		o.Timeout = true
 	}
 	runtime.ReadMemStats(&ms1)
-	for _, d := range tempDirs {
-		_ = os.RemoveAll(d)
-	}
-	tempDirs = nil
 	o.AllocBytes = ms1.TotalAlloc - ms0.TotalAlloc
 	o.Seconds = time.Since(t0).Seconds()
 	return o
@@ -273,6 +269,12 @@ func RunFile(harnesses map[string]func()) (int, error) {
 			break // the stuck goroutine still runs; stop here
 		}
 	}
+	// directories of finished cases are removed only now: background goroutines of a case (e.g. a database) may
+	// still use them after the harness function returned
+	for _, d := range tempDirs {
+		_ = os.RemoveAll(d)
+	}
+	tempDirs = nil
 	res, _ := json.MarshalIndent(outs, "", " ")
 	if p := os.Getenv("VERIF_REPLAY_OUT"); p != "" {
 		if err := os.WriteFile(p, res, 0o644); err != nil {
